@@ -112,8 +112,13 @@ func addHpkeIntrinsics(m map[string]Intrinsic) {
 			return fail("crypto/ecdh: invalid public key")
 		}
 		// low-order point model: the all-zero encapsulated key makes ECDH fail
-		allZero := c.bytesEq(enc, make32Zero())
-		if c.truth(allZero) {
+		one := make32Zero()
+		one[0] = mkInt(8, 1)
+		lowOrder := c.bytesEq(enc, make32Zero())
+		if !c.truth(lowOrder) {
+			lowOrder = c.bytesEq(enc, one)
+		}
+		if c.truth(lowOrder) {
 			return fail("crypto/ecdh: bad X25519 remote ECDH input: low order point")
 		}
 		if kdf != 1 {
